@@ -1,6 +1,6 @@
 //@unit builder
 //@include models/buildw.rs
-//@thread Popen::create .popen .wait .drop_impl drop_glue_popen drop_glue_vec_popen .setup_communicate .join .capture .stream_stdout .stream_stderr .stream_stdin
+//@thread popen::make_pipe popen::set_inheritable Popen::create .popen .wait .drop_impl drop_glue_popen drop_glue_vec_popen .setup_communicate .join .capture .stream_stdout .stream_stderr .stream_stdin
 
 //@source src/popen.rs
 use std::result;
@@ -138,6 +138,10 @@ impl Default for PopenConfig {
 //@end
 //@source src/builder.rs
 }
+// C08: between spawns no library-created pipe end is inheritable ...
+pub open spec fn no_inheritable(w: BW) -> bool { forall|o: int| !(#[trigger] w.inheritable.contains(o)) }
+// ... except the shared stderr sink a pipeline hands to every one of its stages
+pub open spec fn inh_ok(w: BW, stderr_file: Option<File>) -> bool { forall|o: int| #[trigger] w.inheritable.contains(o) ==> stderr_file.is_some() && stderr_file.unwrap().obj@ == o }
 // everything of an Exec except the named part is unchanged
 pub open spec fn same_streams(a: Exec, b: Exec) -> bool {
     a.config.stdin == b.config.stdin && a.config.stdout == b.config.stdout && a.config.stderr == b.config.stderr && a.config.detached == b.config.detached && a.stdin_data == b.stdin_data
@@ -272,11 +276,12 @@ impl Exec {
 //@fn exec::Exec::popen vis=pub world=mut
 //@selfmut
     requires self.stdin_data.is_none(), old(w).s.stages.len() < 0xffff_ffff, //[C16]
+        forall|o: int| #[trigger] old(w).s.inheritable.contains(o) ==> is_given_obj(o, self.config), //[C08]
     ensures match r {
         Ok(p) => {
             // the command run is the builder's command followed by the arguments in the order they were added
             &&& final(w).s == (BW { stages: old(w).s.stages.push(stage_of(self.args@.insert(0, self.command), self.config, p)), ..old(w).s }) //[C16,C13]
-            &&& running(p, old(w).s.stages.len() as int) && p.detached == self.config.detached
+            &&& running(p, old(w).s.stages.len() as int) && p.detached == self.config.detached && final(w).s.inheritable == old(w).s.inheritable
             &&& p.stdin.is_some() == (self.config.stdin is Pipe) && p.stdout.is_some() == (self.config.stdout is Pipe) && p.stderr.is_some() == (self.config.stderr is Pipe)
         },
         Err(e) => final(w).s == old(w).s,
@@ -284,7 +289,7 @@ impl Exec {
 //@end
 
 //@fn exec::Exec::join vis=pub world=mut
-    requires self.stdin_data.is_none(), old(w).s.stages.len() < 0xffff_ffff, //[C16]
+    requires no_inheritable(old(w).s), self.stdin_data.is_none(), old(w).s.stages.len() < 0xffff_ffff, //[C16]
     ensures
         r is Ok ==> final(w).s.stages.len() == old(w).s.stages.len() + 1 && final(w).s.stages.last().reaped, //[C12]
         r is Err ==> final(w).s == old(w).s,
@@ -292,7 +297,7 @@ impl Exec {
 
 //@fn exec::Exec::stream_stdout vis=pub world=mut
 //@sreplace 1 /PopenResult<impl Read>/ => /PopenResult<ReadOutAdapter>/
-    requires self.stdin_data.is_none(), old(w).s.stages.len() < 0xffff_ffff, self.config.stdout is None || self.config.stdout is Pipe, //[C16]
+    requires no_inheritable(old(w).s), self.stdin_data.is_none(), old(w).s.stages.len() < 0xffff_ffff, self.config.stdout is None || self.config.stdout is Pipe, //[C16]
     ensures
         r is Ok ==> stage_ok(r->Ok_0.0, final(w).s) && r->Ok_0.0.stdout.is_some() && (self.config.stdin is None && self.config.stderr is None ==> r->Ok_0.0.stdin.is_none() && r->Ok_0.0.stderr.is_none()),
         r is Ok ==> final(w).s.stages.len() == old(w).s.stages.len() + 1,
@@ -300,14 +305,14 @@ impl Exec {
 //@end
 //@fn exec::Exec::stream_stderr vis=pub world=mut
 //@sreplace 1 /PopenResult<impl Read>/ => /PopenResult<ReadErrAdapter>/
-    requires self.stdin_data.is_none(), old(w).s.stages.len() < 0xffff_ffff, self.config.stderr is None || self.config.stderr is Pipe, //[C16]
+    requires no_inheritable(old(w).s), self.stdin_data.is_none(), old(w).s.stages.len() < 0xffff_ffff, self.config.stderr is None || self.config.stderr is Pipe, //[C16]
     ensures
         r is Ok ==> stage_ok(r->Ok_0.0, final(w).s) && r->Ok_0.0.stderr.is_some() && (self.config.stdin is None && self.config.stdout is None ==> r->Ok_0.0.stdin.is_none() && r->Ok_0.0.stdout.is_none()),
         r is Err ==> final(w).s == old(w).s,
 //@end
 //@fn exec::Exec::stream_stdin vis=pub world=mut
 //@sreplace 1 /PopenResult<impl Write>/ => /PopenResult<WriteAdapter>/
-    requires self.stdin_data.is_none(), old(w).s.stages.len() < 0xffff_ffff, self.config.stdin is None || self.config.stdin is Pipe, //[C16]
+    requires no_inheritable(old(w).s), self.stdin_data.is_none(), old(w).s.stages.len() < 0xffff_ffff, self.config.stdin is None || self.config.stdin is Pipe, //[C16]
     ensures
         r is Ok ==> stage_ok(r->Ok_0.0, final(w).s) && r->Ok_0.0.stdin.is_some() && (self.config.stdout is None && self.config.stderr is None ==> r->Ok_0.0.stdout.is_none() && r->Ok_0.0.stderr.is_none()),
         r is Err ==> final(w).s == old(w).s,
@@ -315,7 +320,7 @@ impl Exec {
 
 //@fn exec::Exec::setup_communicate world=mut
 //@selfmut
-    requires old(w).s.stages.len() < 0xffff_ffff,
+    requires no_inheritable(old(w).s), old(w).s.stages.len() < 0xffff_ffff,
         // input data was given exactly when stdin is a pipe (Exec::stdin arranges that; otherwise communicate_start panics as documented)
         self.stdin_data.is_some() == (self.config.stdin is Pipe),
     ensures
@@ -329,13 +334,13 @@ impl Exec {
 //@end
 
 //@fn exec::Exec::communicate vis=pub world=mut
-    requires old(w).s.stages.len() < 0xffff_ffff, self.stdin_data.is_some() == (self.config.stdin is Pipe),
+    requires no_inheritable(old(w).s), old(w).s.stages.len() < 0xffff_ffff, self.stdin_data.is_some() == (self.config.stdin is Pipe),
     ensures r is Err ==> final(w).s == old(w).s,
         r is Ok ==> final(w).s.stages.len() == old(w).s.stages.len() + 1 && final(w).s.stages.last().detached,
 //@end
 
 //@fn exec::Exec::capture vis=pub world=mut
-    requires old(w).s.stages.len() < 0xffff_ffff, self.stdin_data.is_some() == (self.config.stdin is Pipe),
+    requires no_inheritable(old(w).s), old(w).s.stages.len() < 0xffff_ffff, self.stdin_data.is_some() == (self.config.stdin is Pipe),
     ensures
         // capture returns only after the child has been waited for
         r is Ok ==> final(w).s.stages.len() == old(w).s.stages.len() + 1 && final(w).s.stages.last().reaped, //[C12]
@@ -447,12 +452,13 @@ impl Pipeline {
         broadcast use given_lemmas;
 //@contract
     requires
+        inh_ok(old(w).s, self.stderr_file), //[C08]
         self.stdin_data.is_none(), cmds_ok(self.cmds@, self.stderr_file.is_some()), !(self.stdin is Merge),
         old(w).s.stages.len() + self.cmds@.len() < 0xffff_ffff,
     ensures match r {
         Ok(v) => ({
             let b = old(w).s.stages.len() as int; let n = self.cmds@.len() as int; let s = final(w).s.stages;
-            &&& v@.len() == n && s.len() == b + n
+            &&& v@.len() == n && s.len() == b + n && final(w).s.inheritable == old(w).s.inheritable
             &&& forall|j: int| 0 <= j < b ==> (#[trigger] s[j]) == old(w).s.stages[j]
             &&& forall|i: int| 0 <= i < n ==> {
                     &&& running(#[trigger] v@[i], b + i) && v@[i].detached == self.cmds@[i].config.detached
@@ -485,7 +491,7 @@ impl Pipeline {
         invariant
             0 <= idx <= cnt, cnt == cmds1.len(), cnt == this.cmds@.len() + idx, cnt >= 2, cnt == self.cmds@.len(),
             this.cmds@ == cmds1.subrange(idx as int, cnt as int),
-            ret@.len() == idx, b == old(w).s.stages.len(), b + cnt < 0xffff_ffff,
+            ret@.len() == idx, b == old(w).s.stages.len(), b + cnt < 0xffff_ffff, w.s.inheritable == old(w).s.inheritable, inh_ok(w.s, self.stderr_file),
             w.s.stages.len() == b + idx, forall|j: int| 0 <= j < b ==> (#[trigger] w.s.stages[j]) == old(w).s.stages[j],
             // what the prepared commands look like
             forall|i: int| 0 <= i < cnt ==> {
@@ -517,7 +523,7 @@ impl Pipeline {
         decreases cnt - idx,
 //@loop 1 optional
         invariant
-            ret@.len() == idx, it.iter.end == idx, idx < cnt, w.s.stages.len() == b + idx, b == old(w).s.stages.len(), cnt == self.cmds@.len(),
+            w.s.inheritable == old(w).s.inheritable, ret@.len() == idx, it.iter.end == idx, idx < cnt, w.s.stages.len() == b + idx, b == old(w).s.stages.len(), cnt == self.cmds@.len(),
             forall|j: int| 0 <= j < b ==> (#[trigger] w.s.stages[j]) == old(w).s.stages[j],
             forall|j: int| b <= j < b + idx ==> (#[trigger] w.s.stages[j]).detached == ret@[j - b].detached && !w.s.stages[j].reaped,
             forall|k: int| 0 <= k < ret@.len() ==> running(#[trigger] ret@[k], b + k),
@@ -527,6 +533,7 @@ impl Pipeline {
 //@fn pipeline::Pipeline::join vis=pub world=mut
 //@rreplace 1 /v\.last_mut\(\)\.unwrap\(\)\.wait\(Tracked\(w\)\)/ => /{ let ghost b_ = old(w).s.stages.len() as int; let r_ = v.last_mut().unwrap().wait(Tracked(w)); let ghost v1_ = v@; drop_glue_vec_popen(v, Tracked(w)); proof { assert forall|j: int| b_ <= j < w.s.stages.len() && !(#[trigger] w.s.stages[j]).detached implies w.s.stages[j].reaped by { assert(reaped_or_detached(v1_[j - b_], w.s)); } } r_ }/
     requires
+        inh_ok(old(w).s, self.stderr_file), //[C08]
         self.stdin_data.is_none(), cmds_ok(self.cmds@, self.stderr_file.is_some()), !(self.stdin is Merge),
         old(w).s.stages.len() + self.cmds@.len() < 0xffff_ffff,
         // join() hands no pipe to anybody: asking for one would leave a child waiting on it
@@ -542,6 +549,7 @@ impl Pipeline {
 //@fn pipeline::Pipeline::stream_stdout vis=pub world=mut
 //@sreplace 1 /PopenResult<impl Read>/ => /PopenResult<ReadPipelineAdapter>/
     requires
+        inh_ok(old(w).s, self.stderr_file), //[C08]
         self.stdin_data.is_none(), cmds_ok(self.cmds@, self.stderr_file.is_some()), !(self.stdin is Merge),
         old(w).s.stages.len() + self.cmds@.len() < 0xffff_ffff,
     ensures
@@ -552,6 +560,7 @@ impl Pipeline {
 //@fn pipeline::Pipeline::stream_stdin vis=pub world=mut
 //@sreplace 1 /PopenResult<impl Write>/ => /PopenResult<WritePipelineAdapter>/
     requires
+        inh_ok(old(w).s, self.stderr_file), //[C08]
         self.stdin_data.is_none(), cmds_ok(self.cmds@, self.stderr_file.is_some()), 
         old(w).s.stages.len() + self.cmds@.len() < 0xffff_ffff,
     ensures
@@ -561,8 +570,9 @@ impl Pipeline {
 
 //@fn pipeline::Pipeline::setup_communicate world=mut
 //@selfmut
-//@rreplace 1 /crate::popen::make_pipe\(\)/ => /popen_m::make_pipe()/
+//@rreplace + /crate::popen::/ => /popen_m::/
     requires
+        no_inheritable(old(w).s), //[C08]
         cmds_ok(self.cmds@, true), self.stderr_file.is_none(), !(self.stdin is Merge), self.stdin_data.is_some() == (self.stdin is Pipe),
         old(w).s.stages.len() + self.cmds@.len() < 0xffff_ffff,
     ensures
@@ -574,6 +584,8 @@ impl Pipeline {
             &&& forall|j: int| b <= j < b + n ==> (#[trigger] s[j]).detached == self.cmds@[j - b].config.detached && !s[j].reaped
             &&& r->Ok_0.0.out_piped@ && r->Ok_0.0.err_piped@
         }),
+        // C08: the parent's read end of the stderr pipe is close-on-exec; the only inheritable end left is the write end the stages were given
+        r is Ok ==> forall|o1: int, o2: int| final(w).s.inheritable.contains(o1) && final(w).s.inheritable.contains(o2) ==> o1 == o2, //[C08]
         r is Err ==> b_le(old(w).s.stages.len() as int, final(w).s.stages.len() as int)
             && forall|j: int| old(w).s.stages.len() <= j < final(w).s.stages.len() ==> !(#[trigger] final(w).s.stages[j]).detached ==> final(w).s.stages[j].reaped, //[C14]
 //@end
@@ -582,6 +594,7 @@ impl Pipeline {
 //@rreplace 1 /let status = v\[vlen - 1\]\.wait\(Tracked\(w\)\)\?;/ => /let status = match v[vlen - 1].wait(Tracked(w)) { Ok(s_) => s_, Err(e_) => { drop_glue_vec_popen(v, Tracked(w)); return Err(e_); } }; let ghost b_ = old(w).s.stages.len() as int; let ghost v1_ = v@; drop_glue_vec_popen(v, Tracked(w)); proof { assert forall|j: int| b_ <= j < w.s.stages.len() && !(#[trigger] w.s.stages[j]).detached implies w.s.stages[j].reaped by { assert(reaped_or_detached(v1_[j - b_], w.s)); } }/
 //@rreplace 1 /let \(out, err\) = comm\.read\(\)\?;/ => /let (out, err) = match comm.read() { Ok(x_) => x_, Err(e_) => { let ghost b_ = old(w).s.stages.len() as int; let ghost v1_ = v@; drop_glue_vec_popen(v, Tracked(w)); proof { assert forall|j: int| b_ <= j < w.s.stages.len() && !(#[trigger] w.s.stages[j]).detached implies w.s.stages[j].reaped by { assert(reaped_or_detached(v1_[j - b_], w.s)); } } return Err(PopenError::from(e_)); } };/
     requires
+        no_inheritable(old(w).s), //[C08]
         cmds_ok(self.cmds@, true), self.stderr_file.is_none(), !(self.stdin is Merge), self.stdin_data.is_some() == (self.stdin is Pipe),
         old(w).s.stages.len() + self.cmds@.len() < 0xffff_ffff,
     ensures
@@ -614,6 +627,7 @@ impl Pipeline {
 //@selfmut
 //@rreplace 1 /this\.cmds\.into_iter\(\)\.map\(\|cmd\| cmd\.detached\(\)\)\.collect\(\)/ => /map_detached(this.cmds)/
     requires
+        no_inheritable(old(w).s), //[C08]
         cmds_ok(self.cmds@, true), self.stderr_file.is_none(), !(self.stdin is Merge), self.stdin_data.is_some() == (self.stdin is Pipe),
         old(w).s.stages.len() + self.cmds@.len() < 0xffff_ffff,
     ensures
